@@ -13,10 +13,15 @@ mkdir -p tests
 cp $M/demo.rs tests/demo_x.rs
 rel=""
 python3 -c "import json,sys; sys.exit(0 if '--release' in json.load(open('$M/meta.json')).get('demo_cmd','') else 1)" 2>/dev/null && rel="--release"
-cargo test --offline $rel --test demo_x >/tmp/confirm_clean.log 2>&1; clean=$?
+feat=$(python3 -c "
+import json,re
+c=json.load(open('$M/meta.json')).get('demo_cmd','')
+m=re.search(r'--features[ =]([\\w,]+)',c)
+print(('--no-default-features --features '+m.group(1)) if '--no-default-features' in c and m else '')" 2>/dev/null)
+cargo test --offline $rel $feat --test demo_x >/tmp/confirm_clean.log 2>&1; clean=$?
 git apply $M/patch.diff || { echo "REJECTED patch does not apply"; exit 1; }
 cargo test --offline --lib >/tmp/confirm_suite.log 2>&1; suite=$?
 npass=$(grep -E "^test result" /tmp/confirm_suite.log | head -1)
-cargo test --offline $rel --test demo_x >/tmp/confirm_mut.log 2>&1; mut=$?
-if [ $clean -eq 0 ] && [ $suite -eq 0 ] && [ $mut -ne 0 ]; then echo "CONFIRMED ($npass; demo: clean pass, mutated fail${rel:+, release})"; exit 0; fi
+cargo test --offline $rel $feat --test demo_x >/tmp/confirm_mut.log 2>&1; mut=$?
+if [ $clean -eq 0 ] && [ $suite -eq 0 ] && [ $mut -ne 0 ]; then echo "CONFIRMED ($npass; demo: clean pass, mutated fail${rel:+, release}${feat:+, $feat})"; exit 0; fi
 echo "REJECTED clean=$clean suite=$suite mutated=$mut $npass"; exit 1
